@@ -212,13 +212,39 @@ func c18Check(c *Ctx, p *Prog, m *Model) {
 			if call, ok := ex.Tuple.(*ssa.Call); ok {
 				if cal := calleeOf(call); cal != nil && cal.String() == "path/filepath.Rel" {
 					// guarded by IsAbs(current) and len(rel) < len(current)
+					// facts known at the return from the dominating branch edges (in whatever form the tests are
+					// written: nested ifs, early returns, negations): IsAbs(current) and len(rel) < len(current)
 					var abs, shorter bool
+					var cur ssa.Value
+					isLenOf := func(v ssa.Value, of func(ssa.Value) bool) bool {
+						c2, ok := v.(*ssa.Call)
+						return ok && isBuiltinCall(c2, "len") && of(strip(c2.Common().Args[0]))
+					}
+					isRel := func(x ssa.Value) bool { return x == ssa.Value(ex) || func() bool { e2, ok := x.(*ssa.Extract); return ok && e2.Tuple == ex.Tuple && e2.Index == 0 }() }
 					for _, g := range guardsOf(b) {
-						d := m.guardDesc(g)
-						if strings.HasPrefix(d, "T:call path/filepath.IsAbs(phi") {
-							abs = true
+						cond, neg := normCond(g.If.Cond)
+						truth := (g.Succ == 0) != neg
+						if c2, ok := cond.(*ssa.Call); ok && truth {
+							if cal2 := calleeOf(c2); cal2 != nil && cal2.String() == "path/filepath.IsAbs" && strip(c2.Common().Args[0]) != ssa.Value(file) {
+								abs = true
+								cur = strip(c2.Common().Args[0])
+							}
 						}
-						if strings.HasPrefix(d, "T:len(") && strings.Contains(d, " < len(phi)") {
+					}
+					isCur := func(x ssa.Value) bool { return cur != nil && x == cur }
+					for _, g := range guardsOf(b) {
+						cond, neg := normCond(g.If.Cond)
+						truth := (g.Succ == 0) != neg
+						bo, ok := cond.(*ssa.BinOp)
+						if !ok {
+							continue
+						}
+						relL, relR := isLenOf(bo.X, isRel), isLenOf(bo.Y, isRel)
+						curL, curR := isLenOf(bo.X, isCur), isLenOf(bo.Y, isCur)
+						switch {
+						case relL && curR && ((bo.Op == token.LSS && truth) || (bo.Op == token.GEQ && !truth)):
+							shorter = true
+						case curL && relR && ((bo.Op == token.GTR && truth) || (bo.Op == token.LEQ && !truth)):
 							shorter = true
 						}
 					}
@@ -270,6 +296,14 @@ func c18Check(c *Ctx, p *Prog, m *Model) {
 						} else if call, ok := sl.Low.(*ssa.Call); ok && isBuiltinCall(call, "len") && exprKey(strip(call.Common().Args[0])) == exprKey(strip(pre)) {
 							just = "HasPrefix(x, p) covers [len(p):]"
 						}
+					}
+				}
+			}
+			// x[strings.Index*(x, ..):] under a test that the index was found
+			if call, ok := sl.Low.(*ssa.Call); ok && just == "" && sl.High == nil {
+				if cal2 := calleeOf(call); cal2 != nil && cal2.Pkg != nil && cal2.Pkg.Pkg.Path() == "strings" && (strings.HasPrefix(cal2.Name(), "Index") || strings.HasPrefix(cal2.Name(), "LastIndex")) {
+					if call.Common().Args[0] == sl.X && idxNonNeg(call, b) {
+						just = "an index found in the same string"
 					}
 				}
 			}
